@@ -135,9 +135,9 @@ FN('take_request', props=['C13', 'C14'], ret='r',
 FN('set_uri', props=['C14'],
    ensures=[('C14.override_installed', 'final(self).uri == Some(uri) && final(self).request == old(self).request && final(self).headers.view() == old(self).headers.view() && final(self).unset.view() == old(self).unset.view()')])
 FN('uri', props=['C14', 'C02', 'C13'], ret='r',
-   ensures=[('C14.effective_uri', '*r == self.eff_uri()')])
+   ensures=[('C02/C14.effective_uri', '*r == self.eff_uri()')])
 FN('prelude', props=['C02', 'C14'], ret='r',
-   ensures=[('C14.request_line_parts', '''*r.0 == self.request.spec_method() && r.2 == self.request.spec_version()
+   ensures=[('C02/C14.request_line_parts', '''*r.0 == self.request.spec_method() && r.2 == self.request.spec_version()
             && str_bytes(r.1) == (match self.eff_uri().spec_path_and_query() { Some(p) => p, None => lit("/") })''')],
    rewrites=[('N5', '.map(|p| p.as_str())', ".map(|p: &crate::http::uri::PathAndQuery| -> (s: &str) ensures str_bytes(s) == p.view() { p.as_str() })")])
 
@@ -213,7 +213,7 @@ FN('new_uri_from_location', props=['C14', 'C12'], ret='r',
    ])
 
 FN('analyze', props=['C17', 'C02'], ret='r',
-   ensures=[('C17.classes_exact', 'res_agree(r, spec_analyze(self.request.spec_method(), self.request.spec_version(), self.eff(), wanted_mode, skip_method_body_check))')],
+   ensures=[('C02/C17.classes_exact', 'res_agree(r, spec_analyze(self.request.spec_method(), self.request.spec_version(), self.eff(), wanted_mode, skip_method_body_check))')],
    head='broadcast use axiom_parse_u64;',
    rewrites=[
        ('N9', 'self.headers_get_all("host").count()', 'self.count_named("host")'),
